@@ -186,7 +186,7 @@ func (fs *FSResults) Spool(graph string, stream *Stream) (string, error) {
 	tbStream := MarshalStream(stream.Pipe, 4) //TODO: make worker count configurable
 	go func() {
 		job.setState(gripql.JobState_RUNNING)
-		log.Printf("Starting Job: %#v", job)
+		log.Printf("Starting Job: %s %s", graph, jobName)
 		defer resultFile.Close()
 		for i := range tbStream {
 			resultFile.Write(i)
